@@ -220,11 +220,13 @@ def family(tname, exp, obs, lost, nextrec):
         return 'end-of-line-lexical-error-reported-at-col-0-of-following-line'
     if f == exp[0] and lost and l == exp[1] - lost:
         return 'line-after-directive-blank-or-splice/following-lines-numbered-too-low'
+    # line bookkeeping does not depend on WHICH violation is diagnosed, only on where its token stands
+    where = tname.split('/')[1] if '/' in tname else ('end-of-line' if group == 'eol' else 'own-line')
     if f != exp[0]:
-        return 'wrong-file/' + tname
+        return 'wrong-file/' + where
     if l != exp[1]:
-        return 'wrong-line/%s/delta%+d' % (tname, max(-9, min(9, l - exp[1])))
-    return 'column-out-of-range/' + tname
+        return 'wrong-line/%s/delta%+d' % (where, max(-9, min(9, l - exp[1])))
+    return 'column-out-of-range/' + where
 
 
 def _job(shard):
